@@ -17,6 +17,9 @@ import (
 type c19Call struct {
 	Call Call  `json:"call"`          // ssnap | sjson | snap (interleaved multi-entry call)
 	New  *Call `json:"new,omitempty"` // a different value for the same slot (phase 3)
+	// Rejected: a MatchStandaloneJSON call that is rejected in every process (input is not JSON, or a matcher addresses a
+	// path that does not exist): it is the k-th standalone call all the same, so the calls after it keep their files
+	Rejected bool `json:"rejected,omitempty"`
 }
 
 type c19Case struct {
@@ -58,7 +61,14 @@ func genC19(t *rapid.T) c19Case {
 	}
 	for i := 0; i < n; i++ {
 		var cc c19Call
-		switch rapid.IntRange(0, 9).Draw(t, "kind") {
+		switch rapid.IntRange(0, 10).Draw(t, "kind") {
+		case 10:
+			cc.Rejected = true
+			if rapid.Bool().Draw(t, "rejectedbymatcher") {
+				cc.Call = Call{API: "sjson", Doc: `{"a":1}`, Form: "string", Matchers: []MatcherSpec{{Kind: "any", Paths: []string{"no.such.path"}}}}
+			} else {
+				cc.Call = Call{API: "sjson", Doc: BS(rapid.SampledFrom([]string{"{", "", "{\"a\":1}}", "not json"}).Draw(t, "invalidjson")), Form: rapid.SampledFrom([]string{"string", "bytes"}).Draw(t, "form")}
+			}
 		case 0:
 			cc.Call = Call{API: "snap", Vals: []Val{strVal(rapid.SampledFrom([]string{"m1", "m2", "multi\nentry"}).Draw(t, "mv"))}}
 		case 1, 2, 3:
@@ -130,7 +140,15 @@ func checkC19(c c19Case) error {
 	for i, cc := range c.Calls {
 		f, id := sc.slot(c.Cfg, c.Test, cc.Call)
 		slots[i] = slot{f, id}
-		expectFiles[f] = true
+		if !cc.Rejected {
+			expectFiles[f] = true
+		}
+	}
+	wantOf := func(cc c19Call, w string) string {
+		if cc.Rejected {
+			return oFailed
+		}
+		return w
 	}
 
 	// process 1: record
@@ -139,7 +157,7 @@ func checkC19(c c19Case) error {
 	ft := newFakeT(c.Test)
 	for i, cc := range c.Calls {
 		r := cc.Call.invoke(cfg, ft)
-		if out, err := outcomeOf(r); err != nil || out != oAdded {
+		if out, err := outcomeOf(r); err != nil || out != wantOf(cc, oAdded) {
 			return fmt.Errorf("recording call %d (%s): outcome %q err %v errors=%q", i+1, cc.Call.API, out, err, clipAll(r.Errors))
 		}
 	}
@@ -151,7 +169,7 @@ func checkC19(c c19Case) error {
 		}
 	}
 	for i, cc := range c.Calls {
-		if slots[i].id != "" {
+		if slots[i].id != "" || cc.Rejected {
 			continue
 		}
 		f, ok := st[slots[i].file]
@@ -174,7 +192,7 @@ func checkC19(c c19Case) error {
 		ft := newFakeT(c.Test)
 		for i, cc := range c.Calls {
 			r := cc.Call.invoke(cfg, ft)
-			if out, err := outcomeOf(r); err != nil || out != oPassed {
+			if out, err := outcomeOf(r); err != nil || out != wantOf(cc, oPassed) {
 				return fmt.Errorf("replay execution %d call %d (%s, file %q): outcome %q err %v errors=%q", e+1, i+1, cc.Call.API, slots[i].file, out, err, clipAll(r.Errors))
 			}
 		}
@@ -199,6 +217,7 @@ func checkC19(c c19Case) error {
 		if cc.New != nil {
 			want = oFailed
 		}
+		want = wantOf(cc, want)
 		if err != nil || out != want {
 			return fmt.Errorf("read-only process, call %d (%s, changed=%v): outcome %q err %v, want %s", i+1, call.API, cc.New != nil, out, err, want)
 		}
@@ -224,6 +243,7 @@ func checkC19(c c19Case) error {
 			if cc.New != nil && e == 0 {
 				want = oUpdated
 			}
+			want = wantOf(cc, want)
 			if err != nil || out != want {
 				return fmt.Errorf("update process, execution %d call %d (%s): outcome %q err %v, want %s", e+1, i+1, call.API, out, err, want)
 			}
@@ -237,7 +257,7 @@ func checkC19(c c19Case) error {
 		}
 	}
 	for i, cc := range c.Calls {
-		if slots[i].id != "" {
+		if slots[i].id != "" || cc.Rejected {
 			continue
 		}
 		call := cc.Call
@@ -300,6 +320,12 @@ func classifyC19(c c19Case) ([]string, bool) {
 		}
 		if cc.Call.API == "sjson" {
 			cls = append(cls, "standalone_json")
+		}
+	}
+	for i, cc := range c.Calls {
+		if cc.Rejected && i < len(c.Calls)-1 {
+			cls = append(cls, "rejected_call_followed_by_calls")
+			nt = true
 		}
 	}
 	if c.Count >= 2 {
